@@ -672,6 +672,18 @@ Section FrameLocal.
   Proof. intros s p col row _ _ _ _ _ H. cbn [n_info nd frame_info i_hasmove] in H. discriminate. Qed.
 End FrameLocal.
 
+(* the translated filler arithmetic: for a given height that fits below the top margin, top + height + bottom is the
+   whole area (used for the hit area of an Overlay around a flow top widget) *)
+Lemma ctbf_given_exact maxrow vt vamt h t0 b0 :
+  let tb := calculate_top_bottom_filler maxrow vt vamt GGiven h None t0 b0 in
+  fst tb + h <= maxrow -> fst tb + h + snd tb = maxrow.
+Proof.
+  unfold calculate_top_bottom_filler. cbv zeta.
+  set (k := int_scale _ _ _). clearbody k.
+  destruct ((b0 + k <? 0) && (0 <? maxrow - h - (b0 + k))) eqn:E1; cbn [fst snd]; [lia|].
+  destruct ((maxrow - h - (b0 + k) <? 0) && (0 <? b0 + k)) eqn:E3; cbn [fst snd]; lia.
+Qed.
+
 (* ---- Overlay ---- *)
 Section OverlayLocal.
   Variable ki : list cinfo.
@@ -705,17 +717,50 @@ Section OverlayLocal.
     - split; [lia|]. split; [|lia]. unfold overlay_top_size. destruct (is_pack _); cbn [fst]; lia.
   Qed.
 
-  (* hit-testing agrees with the drawing when the top widget is a box widget (height given or relative);
-     for height 'pack' the hit area is computed from rows((maxcol,)) at the overlay's full width *)
-  Lemma overlay_mouse : is_pack (fi_ht (ov_fill o)) = false -> LocalMouse nd ki.
+  (* the hit area [top, maxrow - bottom) covers the rows on which the top widget is drawn *)
+  Lemma overlay_hit_rows s maxrow l r t b :
+    snd s = Some maxrow -> overlay_lrtb o (nth_info ki 0) (fst s) maxrow = (l, r, t, b) ->
+    0 <= t -> 0 <= b -> t + crows (nth_info ki 0) (overlay_top_size o (fst s) maxrow l r t b) <= maxrow ->
+    t + crows (nth_info ki 0) (overlay_top_size o (fst s) maxrow l r t b) <= maxrow - b.
   Proof.
-    unfold nd. intros Hnp s p col row focus Hf _ Hp Hbg Hin. cbn [n_place n_fits n_route] in *.
+    intros Es E Ht Hb Hr. unfold overlay_lrtb in E. unfold overlay_top_size, crows in *.
+    destruct (padding_values (ov_pad o) (fst s)) as [l0 r0].
+    destruct (is_pack (fi_ht (ov_fill o))) eqn:Ep; cbn [fst snd] in *.
+    - pose proof (ctbf_given_exact maxrow (fi_vt (ov_fill o)) (fi_vamt (ov_fill o)) (i_rows (nth_info ki 0) (fst s - l0 - r0))
+                    (fi_top (ov_fill o)) (fi_bottom (ov_fill o))) as G. cbv zeta in G.
+      destruct (calculate_top_bottom_filler maxrow (fi_vt (ov_fill o)) (fi_vamt (ov_fill o)) GGiven
+                  (i_rows (nth_info ki 0) (fst s - l0 - r0)) None (fi_top (ov_fill o)) (fi_bottom (ov_fill o))) as [t1 b1].
+      cbn [fst snd] in G. inversion E; subst l0 r0 t1. clear E.
+      destruct (maxrow <? i_rows (nth_info ki 0) (fst s - l - r)) eqn:E2; lia.
+    - lia.
+  Qed.
+
+  Lemma overlay_mouse : LocalMouse nd ki.
+  Proof.
+    unfold nd. intros s p col row focus Hf _ Hp Hbg Hin. cbn [n_place n_fits n_route] in *.
     destruct (overlay_fits_inv s Hf) as [maxrow [l [r [t [b [Es [E [? [? [? [? Hr]]]]]]]]]]].
+    pose proof (overlay_hit_rows s maxrow l r t b Es E H1 H2 Hr) as Hhit.
     unfold overlay_place in Hp. unfold overlay_route. rewrite Es, E in *.
     destruct Hp as [<-|Hp]; [discriminate Hbg|one_placed Hp].
-    unfold in_rect, overlay_top_size, crows in Hin. rewrite Hnp in Hin. cbn [fst snd] in Hin.
+    unfold in_rect in Hin.
+    assert (Ew : fst (overlay_top_size o (fst s) maxrow l r t b) = fst s - l - r).
+    { unfold overlay_top_size. destruct (is_pack _); reflexivity. }
+    rewrite Ew in Hin.
     destruct ((col <? l) || (fst s - r <=? col) || (row <? t) || (maxrow - b <=? row)) eqn:Eb; [lia|].
-    routed_eq.
+    eexists. f_equal. f_equal; lia.
+  Qed.
+
+  Lemma overlay_cursor_ok : LocalCursor nd ki.
+  Proof.
+    unfold nd. intros s Hf _. cbn [n_place n_fits n_cursor] in *.
+    destruct (overlay_fits_inv s Hf) as [maxrow [l [r [t [b [Es [E [? [? [? [? Hr]]]]]]]]]]].
+    unfold overlay_place, overlay_cursor. rewrite Es, E.
+    exists (Placed 0 (Z.max l 0) t (overlay_top_size o (fst s) maxrow l r t b) true false).
+    split; [right; left; reflexivity|]. split; [reflexivity|]. split.
+    - intros q [<-|[<-|[]]] Hq; [discriminate Hq|reflexivity].
+    - cbn [p_idx p_size p_x p_y]. destruct (i_hascur (nth_info ki 0)) eqn:Eh; cbn [negb].
+      + repeat split; try reflexivity; lia.
+      + right; left; reflexivity.
   Qed.
 
   Lemma overlay_flags : LocalFlags nd ki.
@@ -1004,7 +1049,10 @@ Section ColumnsLocal.
       rewrite E in E2. destruct (app_mid_eq pre pre2 (w, h, csz) x2 post post2 E2) as [<- [<- <-]].
       { unfold zlen in *. lia. }
       cbn [snd]. f_equal; lia.
-    - cbn [p_idx p_size p_x p_y]. unfold columns_cursor. rewrite Hi.
+    - cbn [p_idx p_size p_x p_y]. unfold columns_cursor.
+      assert (Enn : forall (A : Type) (a b : A), match items with [] => a | _ :: _ => b end = b).
+      { intros A a0 b0. clear - Hi. destruct items; [rewrite nthz_nil in Hi; discriminate|reflexivity]. }
+      rewrite Enn. rewrite Hi.
       unfold ki. rewrite (nth_info_map_snd items _ _ _ Hi).
       destruct (i_sel ci) eqn:Es; cbn [negb]; [|left; reflexivity].
       destruct (i_hascur ci) eqn:Eh; cbn [negb]; [|right; left; reflexivity].
@@ -1085,18 +1133,9 @@ Proof.
   - apply overlay_flags.
 Qed.
 
-(* hit-testing: every class but an Overlay whose top widget is a flow widget (height 'pack') *)
-Definition top_not_pack_overlay (w : widget) : bool :=
-  match w with
-  | Overlay _ _ _ _ _ _ _ _ _ _ _ ht _ _ _ _ => negb (is_pack ht)
-  | _ => true
-  end.
-Definition not_overlay (w : widget) : bool :=
-  match w with Overlay _ _ _ _ _ _ _ _ _ _ _ _ _ _ _ _ => false | _ => true end.
-
-Lemma wnode_mouse w : top_not_pack_overlay w = true -> LocalMouse (wnode w) (map v_info (kidviews w)).
+Lemma wnode_mouse w : LocalMouse (wnode w) (map v_info (kidviews w)).
 Proof.
-  destruct w; unfold wnode; intro Hov.
+  destruct w; unfold wnode.
   - apply leaf_node_local.
   - cbn [node_of kidviews kids_with].
     pose proof (pile_mouse (combine (map fst items) (map v_info (map (fun it => view (snd it)) items))) fp) as H.
@@ -1109,12 +1148,12 @@ Proof.
   - rewrite frame_node_eq. apply frame_mouse.
   - apply boxadapter_mouse.
   - apply attrmap_mouse.
-  - apply overlay_mouse. cbn [ov_fill fi_ht]. cbn in Hov. destruct (is_pack ht); [discriminate|reflexivity].
+  - apply overlay_mouse.
 Qed.
 
-Lemma wnode_cursor w : not_overlay w = true -> LocalCursor (wnode w) (map v_info (kidviews w)).
+Lemma wnode_cursor w : LocalCursor (wnode w) (map v_info (kidviews w)).
 Proof.
-  destruct w; unfold wnode; intro Hov; try discriminate Hov.
+  destruct w; unfold wnode.
   - apply leaf_node_local.
   - cbn [node_of kidviews kids_with].
     pose proof (pile_cursor_ok (combine (map fst items) (map v_info (map (fun it => view (snd it)) items))) fp) as H.
@@ -1127,6 +1166,7 @@ Proof.
   - rewrite frame_node_eq. apply frame_cursor_ok.
   - apply boxadapter_cursor_ok.
   - apply attrmap_cursor_ok.
+  - apply overlay_cursor_ok.
 Qed.
 
 Lemma wnode_move w : LocalMove (wnode w) (map v_info (kidviews w)).
@@ -1219,86 +1259,45 @@ Lemma kids_good w : Forall Good (kidviews w).
 Proof. apply kidviews_forall; [apply view_good|apply good_dummy]. Qed.
 
 (* ---- hit-testing, all the way down to the leaves ---- *)
-Fixpoint ov_boxtop (w : widget) : bool :=        (* every Overlay in the tree has a box top widget *)
-  match w with
-  | Leaf _ => true
-  | Pile items _ => forallb (fun it => ov_boxtop (snd it)) items
-  | Columns items _ _ _ => forallb (fun it => ov_boxtop (snd it)) items
-  | Padding c _ _ _ _ _ _ _ => ov_boxtop c
-  | Filler c _ _ _ _ _ _ _ => ov_boxtop c
-  | Frame body hdr ftr _ =>
-      ov_boxtop body && match hdr with Some h => ov_boxtop h | None => true end
-                     && match ftr with Some f => ov_boxtop f | None => true end
-  | BoxAdapter c _ => ov_boxtop c
-  | AttrMap c => ov_boxtop c
-  | Overlay t b _ _ _ _ _ _ _ _ _ ht _ _ _ _ => negb (is_pack ht) && ov_boxtop t && ov_boxtop b
-  end.
-
-Fixpoint ov_free (w : widget) : bool :=          (* no Overlay in the tree *)
-  match w with
-  | Leaf _ => true
-  | Pile items _ => forallb (fun it => ov_free (snd it)) items
-  | Columns items _ _ _ => forallb (fun it => ov_free (snd it)) items
-  | Padding c _ _ _ _ _ _ _ => ov_free c
-  | Filler c _ _ _ _ _ _ _ => ov_free c
-  | Frame body hdr ftr _ =>
-      ov_free body && match hdr with Some h => ov_free h | None => true end
-                   && match ftr with Some f => ov_free f | None => true end
-  | BoxAdapter c _ => ov_free c
-  | AttrMap c => ov_free c
-  | Overlay _ _ _ _ _ _ _ _ _ _ _ _ _ _ _ _ => false
-  end.
-
-Lemma forallb_Forall_imp {A} (f : A -> bool) (P : A -> Prop) l :
-  forallb f l = true -> Forall (fun x => f x = true -> P x) l -> Forall P l.
+Theorem mouse_deep_all : forall w, MouseDeep (view w).
 Proof.
-  intros H HF. rewrite forallb_forall in H. rewrite Forall_forall in *. intros x Hx. apply HF; auto.
-Qed.
-
-Theorem mouse_deep_all : forall w, ov_boxtop w = true -> MouseDeep (view w).
-Proof.
-  induction w using widget_ind2; intro Hov; rewrite view_eq; try apply leaf_mouse_deep.
+  induction w using widget_ind2; rewrite view_eq; try apply leaf_mouse_deep.
   all: apply interp_mouse_deep;
     [apply wnode_within
     |apply wnode_mouse
     |eapply Forall_proj; [|apply kids_good]; intros x Hx; apply Hx
-    |]; cbn [kidviews kids_with top_not_pack_overlay]; cbn [ov_boxtop] in Hov.
-  all: try reflexivity.
-  - apply Forall_map. apply (forallb_Forall_imp _ _ _ Hov). exact H.
-  - apply Forall_map. apply (forallb_Forall_imp _ _ _ Hov). exact H.
+    |]; cbn [kidviews kids_with].
+  - apply Forall_map. exact H.
+  - apply Forall_map. exact H.
   - fa; auto.
   - fa; auto.
-  - apply andb_true_iff in Hov as [Hov H3]. apply andb_true_iff in Hov as [H1 H2].
-    fa; auto.
-    + destruct hdr; [apply H; [reflexivity|exact H2]|apply dummy_mouse_deep].
-    + destruct ftr; [apply H0; [reflexivity|exact H3]|apply dummy_mouse_deep].
+  - fa; auto.
+    + destruct hdr; [apply H; reflexivity|apply dummy_mouse_deep].
+    + destruct ftr; [apply H0; reflexivity|apply dummy_mouse_deep].
   - fa; auto.
   - fa; auto.
-  - apply andb_true_iff in Hov as [Hov H3]. apply andb_true_iff in Hov as [H1 H2]. exact H1.
-  - apply andb_true_iff in Hov as [Hov H3]. apply andb_true_iff in Hov as [H1 H2].
-    fa; auto.
+  - fa; auto.
 Qed.
 
 (* ---- reported cursor = cursor of the focused rendering ---- *)
-Theorem cursor_deep_all : forall w, ov_free w = true -> CursorDeep (view w).
+Theorem cursor_deep_all : forall w, CursorDeep (view w).
 Proof.
-  induction w using widget_ind2; intro Hov; rewrite view_eq; try apply leaf_cursor_deep.
-  all: try discriminate Hov.
+  induction w using widget_ind2; rewrite view_eq; try apply leaf_cursor_deep.
   all: apply interp_cursor_deep;
-    [apply wnode_cursor; reflexivity
+    [apply wnode_cursor
     |
     |eapply Forall_proj; [|apply kids_good]; intros x Hx; apply Hx
     |eapply Forall_proj; [|apply kids_good]; intros x Hx; apply Hx
     |eapply Forall_proj; [|apply kids_good]; intros x Hx; apply Hx
-    |eapply Forall_proj; [|apply kids_good]; intros x Hx; apply Hx]; cbn [kidviews kids_with]; cbn [ov_free] in Hov.
-  - apply Forall_map. apply (forallb_Forall_imp _ _ _ Hov). exact H.
-  - apply Forall_map. apply (forallb_Forall_imp _ _ _ Hov). exact H.
+    |eapply Forall_proj; [|apply kids_good]; intros x Hx; apply Hx]; cbn [kidviews kids_with].
+  - apply Forall_map. exact H.
+  - apply Forall_map. exact H.
   - fa; auto.
   - fa; auto.
-  - apply andb_true_iff in Hov as [Hov H3]. apply andb_true_iff in Hov as [H1 H2].
-    fa; auto.
-    + destruct hdr; [apply H; [reflexivity|exact H2]|apply dummy_cursor_deep].
-    + destruct ftr; [apply H0; [reflexivity|exact H3]|apply dummy_cursor_deep].
+  - fa; auto.
+    + destruct hdr; [apply H; reflexivity|apply dummy_cursor_deep].
+    + destruct ftr; [apply H0; reflexivity|apply dummy_cursor_deep].
+  - fa; auto.
   - fa; auto.
   - fa; auto.
 Qed.
@@ -1320,25 +1319,25 @@ Lemma place_node w s : place w s = match w with Leaf _ => [] | _ => n_place (wno
 Proof. unfold place. rewrite view_eq. destruct w; reflexivity. Qed.
 
 Theorem mouse_route_hits_child : forall w s p col row focus,
-  fits w s = true -> top_not_pack_overlay w = true -> In p (place w s) -> p_bg p = false ->
+  fits w s = true -> In p (place w s) -> p_bg p = false ->
   in_rect (p_x p) (p_y p) (fst (p_size p)) (crows (child_info w (p_idx p)) (p_size p)) col row ->
   exists f, mouse_route w s col row focus = Some (Routed (p_idx p) (p_size p) (col - p_x p) (row - p_y p) f).
 Proof.
-  intros w s p col row focus Hf Hov Hp Hbg Hin. pose proof (fits_node w s Hf) as Hn. rewrite place_node in Hp.
+  intros w s p col row focus Hf Hp Hbg Hin. pose proof (fits_node w s Hf) as Hn. rewrite place_node in Hp.
   unfold mouse_route. destruct w; try contradiction; destruct Hn as [Hpos Hn];
-    eapply (wnode_mouse _ Hov); eauto.
+    eapply wnode_mouse; eauto.
 Qed.
 
 Theorem mouse_route_unique : forall w s p q col row,
-  fits w s = true -> top_not_pack_overlay w = true ->
+  fits w s = true ->
   In p (place w s) -> p_bg p = false -> In q (place w s) -> p_bg q = false ->
   in_rect (p_x p) (p_y p) (fst (p_size p)) (crows (child_info w (p_idx p)) (p_size p)) col row ->
   in_rect (p_x q) (p_y q) (fst (p_size q)) (crows (child_info w (p_idx q)) (p_size q)) col row ->
   p_idx p = p_idx q /\ p_size p = p_size q /\ p_x p = p_x q /\ p_y p = p_y q.
 Proof.
-  intros w s p q col row Hf Hov Hp Hpb Hq Hqb Hip Hiq.
-  destruct (mouse_route_hits_child w s p col row true Hf Hov Hp Hpb Hip) as [f1 E1].
-  destruct (mouse_route_hits_child w s q col row true Hf Hov Hq Hqb Hiq) as [f2 E2].
+  intros w s p q col row Hf Hp Hpb Hq Hqb Hip Hiq.
+  destruct (mouse_route_hits_child w s p col row true Hf Hp Hpb Hip) as [f1 E1].
+  destruct (mouse_route_hits_child w s q col row true Hf Hq Hqb Hiq) as [f2 E2].
   rewrite E1 in E2. inversion E2. repeat split; auto; lia.
 Qed.
 
